@@ -67,6 +67,53 @@ func Since(site string) func(time.Time) time.Duration {
 func Until(site string) func(time.Time) time.Duration {
 	return func(t time.Time) time.Duration { return t.Sub(Now(site)()) }
 }
+
+// Timers is nil unless a simulation owns the timers of the instrumented packages: it is told where a
+// timer, ticker or sleep is started and for how long, and answers how long it really takes (0: at once).
+var Timers func(site string, d time.Duration) time.Duration
+
+func dur(site string, d time.Duration) time.Duration {
+	if t := Timers; t != nil {
+		return t(site, d)
+	}
+	return d
+}
+
+func NewTimer(site string) func(time.Duration) *time.Timer {
+	return func(d time.Duration) *time.Timer { return time.NewTimer(dur(site, d)) }
+}
+
+func After(site string) func(time.Duration) <-chan time.Time {
+	return func(d time.Duration) <-chan time.Time { return time.After(dur(site, d)) }
+}
+
+func AfterFunc(site string) func(time.Duration, func()) *time.Timer {
+	return func(d time.Duration, f func()) *time.Timer { return time.AfterFunc(dur(site, d), f) }
+}
+
+func Sleep(site string) func(time.Duration) {
+	return func(d time.Duration) { time.Sleep(dur(site, d)) }
+}
+
+func NewTicker(site string) func(time.Duration) *time.Ticker {
+	return func(d time.Duration) *time.Ticker {
+		if e := dur(site, d); e > 0 {
+			d = e
+		} else if d > 0 {
+			d = 1
+		}
+		return time.NewTicker(d)
+	}
+}
+
+func Tick(site string) func(time.Duration) <-chan time.Time {
+	return func(d time.Duration) <-chan time.Time {
+		if d <= 0 {
+			return nil
+		}
+		return NewTicker(site)(d).C
+	}
+}
 `
 
 func instrumentMain(args []string) {
@@ -205,7 +252,7 @@ func instrumentFile(rel string, data []byte) ([]byte, int, int, error) {
 				return true
 			}
 			switch se.Sel.Name {
-			case "Now", "Since", "Until":
+			case "Now", "Since", "Until", "NewTimer", "After", "AfterFunc", "Sleep", "NewTicker", "Tick":
 				from := fset.Position(se.Pos()).Offset
 				to := fset.Position(se.End()).Offset
 				site := fmt.Sprintf("%s:%d", filepath.ToSlash(rel), fset.Position(se.Pos()).Line)
